@@ -338,7 +338,8 @@ impl Value {
           FeelType::List(Box::new(FeelType::Null))
         } else {
           let item_type = values.as_vec()[0].type_of();
-          for item in values.as_vec() {
+          // the type of the first item is already known, compare it with the types of the remaining items
+          for item in values.as_vec().iter().skip(1) {
             if item.type_of() != item_type {
               return FeelType::List(Box::new(FeelType::Any));
             }
